@@ -93,6 +93,19 @@ def harness(args, race=False, timeout=1800, env=None, ok_codes=(0,), cmd="vharne
     return p
 
 
+def take_stall(path):
+    """A driver stopped by its stall guard (harness/vt.StallGuard) leaves a final {"op": "stall"} record: not an
+    event of the trace but a verdict of its own.  Removes it (and a run header left dangling before it) and returns it."""
+    evs = read_ndjson(path)
+    if not evs or evs[-1].get("op") != "stall":
+        return None
+    st = evs.pop()
+    while evs and evs[-1].get("op") == "reset":
+        evs.pop()
+    write_ndjson(path, evs)
+    return st
+
+
 # --------------------------------------------------------------------------
 # TLC
 # --------------------------------------------------------------------------
